@@ -62,7 +62,13 @@ def run_component_case(c, want_jac=True):
         osz = {o: real[o].size for o in outputs}
         isz = {i: np.asarray(inputs[i]).size for i in inputs}
         rJ = core.dense_from_blocks(comp_jacobian(prob, outputs, list(inputs)), outputs, list(inputs), osz, isz)
-        ok, msg = close_jac(rJ, mJ, rtol=jtol, atol=c.get("jatol", 0.0), fvals=real_flat, xvals=in_flat)
+        fv = real_flat
+        if c.get("jrowscale"):
+            # outputs of very different magnitudes (atmosphere: T ~ 4e2 … mu ~ 3e-7): compare the Jacobians of the outputs relative to
+            # their own values, so that the column-relative tolerance means the same for every row
+            sc = 1.0 / np.maximum(np.abs(real_flat), 1e-300)
+            rJ = rJ * sc[:, None]; mJ = mJ * sc[:, None]; fv = np.ones_like(real_flat)
+        ok, msg = close_jac(rJ, mJ, rtol=jtol, atol=c.get("jatol", 0.0), fvals=fv, xvals=in_flat)
         if not ok:
             out.append(dict(kind="jacobian", component=c["name"], size=c["size"], detail=msg))
     else:
